@@ -114,10 +114,34 @@ static var parse_value(void) {
   }
 }
 
+/* P(v,v,@0,...): a heap Tuple built by push; @j pushes the very pointer of slot j again */
+static var parse_ptuple(void) {
+  var items[MAXITEMS]; size_t n = 0;
+  P0 += 2;
+  if (*P0 == ')') { P0++; return new_raw(Tuple); }
+  while (1) {
+    if (n + 1 > MAXITEMS) { bad = 1; return NULL; }
+    if (*P0 == '@') {
+      char* e; long j = strtol(P0 + 1, &e, 10); P0 = e;
+      if (j < 0 || (size_t)j >= n) { bad = 1; return NULL; }
+      items[n++] = items[j];
+    } else {
+      items[n++] = parse_value();
+      if (bad) return NULL;
+    }
+    if (*P0 == ',') { P0++; continue; }
+    if (*P0 == ')') { P0++; break; }
+    bad = 1; return NULL;
+  }
+  var s = new_raw(Tuple);
+  for (size_t i = 0; i < n; i++) push(s, items[i]);
+  return s;
+}
+
 static var build(char* tok) {
   var v = NULL;
   P0 = tok; bad = 0;
-  try { v = parse_value(); } catch (e) { bad = 1; }
+  try { v = (tok[0] == 'P' && tok[1] == '(') ? parse_ptuple() : parse_value(); } catch (e) { bad = 1; }
   if (*P0 != 0) bad = 1;
   return bad ? NULL : v;
 }
